@@ -48,3 +48,7 @@ def arrow_chunked_keys_str_dt_or_int_null(case):
 
 def polars_values_container(case):
     return case.get("container") in ("polars", "plframe")
+
+
+def row_selection_without_input_index(case):
+    return case.get("op") in ("head", "tail", "nth")
